@@ -216,17 +216,19 @@ fn strategy(tier: Tier) -> BoxedStrategy<Case> {
 }
 
 pub fn checks() -> Vec<Box<dyn DynCheck>> {
-    vec![Box::new(C02), Box::new(super::extendpaths::ExtCms)]
+    vec![Box::new(C02), Box::new(super::extendpaths::ExtCms), Box::new(super::extendpaths::HashIterCheck)]
 }
 
 pub fn run(ctx: &Ctx) {
-    ctx.set_rule("generated: w in 1..=64 (rarely up to 3000), d in 1..=8 (rarely up to 24; w != d in most cases, both w > d and d > w), counter type in {u8,u16,u32,u64,usize}, hashers incl. row colliders (Split with chosen h1/h2, Const, Mod), universe <=32 keys, history of add/add_n/merge/clear with weights scaled to the remaining head-room so the documented overflow panic is never provoked. After every op, for every universe key: true(x) <= query_point(x) <= N; add/add_n return == query_point right after; a single distinct element is exact. Non-trivial: an overestimate was observed (two keys share a cell in every row), or a merge followed by an add, or w != d with d >= 2. Distinct = hash of the case; evaluations = operations executed. extend_path: default-hasher CountMinSketch (w 1..64, d 1..4) fed through Extend::extend in generated chunks: query_point never below the true count after any chunk and equal to a sketch filled by add calls.");
+    ctx.set_rule("generated: w in 1..=64 (rarely up to 3000), d in 1..=8 (rarely up to 24; w != d in most cases, both w > d and d > w), counter type in {u8,u16,u32,u64,usize}, hashers incl. row colliders (Split with chosen h1/h2, Const, Mod), universe <=32 keys, history of add/add_n/merge/clear with weights scaled to the remaining head-room so the documented overflow panic is never provoked. After every op, for every universe key: true(x) <= query_point(x) <= N; add/add_n return == query_point right after; a single distinct element is exact. Non-trivial: an overestimate was observed (two keys share a cell in every row), or a merge followed by an add, or w != d with d >= 2. Distinct = hash of the case; evaluations = operations executed. extend_path: default-hasher CountMinSketch (w 1..64, d 1..4) fed through Extend::extend in generated chunks: query_point never below the true count after any chunk and equal to a sketch filled by add calls. hash_iter: HashIterBuilder::new(m, k, hasher) for m in 1..2^31 and k in 0..=40 under the generated hasher families: iter_for yields exactly k values, all in [0, m), deterministically, f(i) in [0, m), and values #2.. equal (h1 + i*h2 + f(i)) mod m with h1, h2 solved from values #0 and #1 (the documented enhanced double hashing).");
     ctx.assume("weights never overflow the counter type (checked_add panic is documented behaviour and not generated)");
     ctx.run_regressions(&[&C02]);
     let t = ctx.tier;
     ctx.run_random(&C02, t.pick(600_000, 5_000_000), move || strategy(t));
     // the Extend entry point of the default-hasher CountMinSketch
     ctx.run_random(&super::extendpaths::ExtCms, t.pick(30_000, 300_000), super::extendpaths::cms_strategy);
+    // the documented contract of the hash iterator both CountMinSketch and BloomFilter index with
+    ctx.run_random(&super::extendpaths::HashIterCheck, t.pick(60_000, 600_000), super::extendpaths::hash_iter_strategy);
     ctx.require_class("history", "overestimate_observed", 0.2);
     ctx.require_class("history", "merge_then_add", 0.2);
     ctx.require_class("history", "w!=d", 0.6);
